@@ -282,3 +282,10 @@ CHECKS["C20"] = {
     "level_note": "Trusted: rustc's trait solver for the gate; Miri and TSan for the dynamic part. Validated on scratch mutants: Rc + unsafe impl Send/Sync is reported by Miri and TSan at SeaRc::clone, Rc without the impls and a non-Send field in WindowStatement are reported by the gate.",
     "min_nontrivial": 50,
 }
+
+# Supplementary Miri slices (DESIGN §6): thorough tier only; they watch the pure-Rust paths for undefined
+# behaviour (today the one `unsafe` block, the transmute in SeaRc::eq, is on C15's path).
+MIRI = {"variant": "miri", "kind": "script", "script": "pure_miri.py", "thorough_only": True}
+for _p in ("C12", "C15", "C16", "C17"):
+    CHECKS[_p]["parts"] = list(CHECKS[_p]["parts"]) + [MIRI]
+    CHECKS[_p]["technique"] += "; thorough tier adds a Miri (UB interpreter) slice of the same operations"
